@@ -10,6 +10,9 @@
 EXTENDS Integers, Sequences, FiniteSets
 
 Kinds == {"int", "real", "num", "str", "bin", "bool", "log", "enum", "ref", "sel", "li", "lr"}
+(* attributes whose domain reaches a simple type through one or two defined types (TYPE lab = STRING; TYPE lab2 = lab) *)
+DefinedKinds == {"dstr", "dstr2", "dint", "dint2", "dreal2"}
+BaseKind(k) == CASE k \in {"dstr", "dstr2"} -> "str" [] k \in {"dint", "dint2"} -> "int" [] k = "dreal2" -> "real" [] OTHER -> k
 Substitutable == {"int", "real", "num", "str"}
 SEV_NULL == 3
 SEV_USERMSG == 2
@@ -24,10 +27,10 @@ SEV_INCOMPLETE == 1
 MissingOutcome(kind, opt, strict, form) ==
   IF opt THEN "accept_null"
   ELSE IF strict THEN "incomplete"
-  ELSE IF kind \in Substitutable THEN (IF form = "$" THEN "accept_subst" ELSE "free")
+  ELSE IF BaseKind(kind) \in Substitutable THEN (IF form = "$" THEN "accept_subst" ELSE "free")
   ELSE "incomplete"
 
-SubstClass(kind) == IF kind = "str" THEN "empty" ELSE "zero"
+SubstClass(kind) == IF BaseKind(kind) = "str" THEN "empty" ELSE "zero"
 
 (* is an observation (file severity, class of the value written back) what the outcome demands? *)
 Satisfies(outcome, kind, sev, wclass) ==
@@ -39,7 +42,7 @@ Satisfies(outcome, kind, sev, wclass) ==
 (* Dev_QuotedNumericFiller: for INTEGER / REAL / NUMBER the lenient substitution fails internally (the filler text *)
 (* is quoted), the attribute stays unset and the instance is reported with a severity below USERMSG               *)
 Dev_QuotedNumericFiller(outcome, kind, sev, wclass) ==
-  outcome = "accept_subst" /\ kind \in {"int", "real", "num"} /\ sev <= SEV_INCOMPLETE /\ wclass = "null"
+  outcome = "accept_subst" /\ BaseKind(kind) \in {"int", "real", "num"} /\ sev <= SEV_INCOMPLETE /\ wclass = "null"
 
 (* Dev_ComplexPartSeverityDropped: STEPcomplex::STEPread discards the severity (and the strict flag) of each part, *)
 (* so an unset required attribute inside a part of a complex instance is accepted silently in both modes          *)
